@@ -935,3 +935,73 @@ impl Case {
         drop(self.jobs);
     }
 }
+
+/// C05 / C20: the real cleanup ticker (crossbeam `tick`, async-io `Timer::interval`), which every other
+/// suite replaces by a controllable channel.  Free-running caches of both flavours with a 100 ms and
+/// a 250 ms cleanup interval: the processor must take its tick arm at about that rate (bounds are
+/// loose: a third to twice the nominal count) and an entry whose TTL has elapsed (virtual clock) must
+/// be reclaimed and handed to on_evict by it.  Not compared with the model (ticks are labels there).
+pub fn suite_ticker(t: &mut Trace) -> String {
+    let sched = Sched::new();
+    stretto::verif::install(Some(sched.clone()));
+    let mut rows = Vec::new();
+    let mut id = 0u64;
+    for is_async in [false, true] {
+        for ms in [100u64, 250] {
+            sched.reset();
+            sched.set_controlled(false);
+            verif::set_sync_ticker(None);
+            verif::set_async_ticker(None);
+            let t0 = 1_700_000_000_000_000_000u64;
+            verif::clock::set_ns(t0);
+            let cb = Cb::default();
+            let ck = if is_async {
+                CK::A(AsyncCacheBuilder::new_with_key_builder(64, 1000, TableKB)
+                    .set_coster(Co(0)).set_update_validator(Va(0)).set_callback(cb.clone())
+                    .set_metrics(true).set_ignore_internal_cost(true)
+                    .set_cleanup_duration(Duration::from_millis(ms))
+                    .set_hasher(SeedBH(7))
+                    .finalize(spawner).expect("async cache"))
+            } else {
+                CK::S(CacheBuilder::new_with_key_builder(64, 1000, TableKB)
+                    .set_coster(Co(0)).set_update_validator(Va(0)).set_callback(cb.clone())
+                    .set_metrics(true).set_ignore_internal_cost(true)
+                    .set_cleanup_duration(Duration::from_millis(ms))
+                    .set_hasher(SeedBH(7))
+                    .finalize().expect("sync cache"))
+            };
+            t.case(id, "ticker");
+            let r1 = do_op(&ck, &Op::Insert { idx: 1, conf: 0, val: 1001, cost: 1, ttl_ns: 1_000_000_000, only: false });
+            let r2 = do_op(&ck, &Op::Insert { idx: 2, conf: 0, val: 1002, cost: 1, ttl_ns: 0, only: false });
+            let _ = do_op(&ck, &Op::Wait);
+            let len_before = snapshot(&ck).store.len();
+            verif::clock::set_ns(t0 + 10_000_000_000);
+            let _ = sched.take_notes();
+            let window = Duration::from_millis(1200);
+            std::thread::sleep(window);
+            let ticks = sched.take_notes().iter().filter(|(_, n, _)| *n == "proc:arm:tick").count() as u64;
+            let s = snapshot(&ck);
+            let evicted: Vec<String> = cb.0.lock().unwrap().clone();
+            let nominal = 1200 / ms;
+            let (lo, hi) = ((nominal / 3).max(1), nominal * 2 + 3);
+            t.step(&format!("ticker async={} interval_ms={} inserted={},{} len_before={} ticks={} len_after={} callbacks={}",
+                            is_async as u8, ms, r1, r2, len_before, ticks, s.store.len(), evicted.join("+")));
+            t.mark_nontrivial();
+            if ticks < lo || ticks > hi {
+                println!("MONITOR property=C05 case={} msg=the_cleanup_ticker_fired_{}_times_in_1200_ms_with_a_{}_ms_interval_(expected_between_{}_and_{})_async={}", id, ticks, ms, lo, hi, is_async);
+                println!("MONITOR property=C20 case={} msg=the_cleanup_ticker_fired_{}_times_in_1200_ms_with_a_{}_ms_interval_(expected_between_{}_and_{})_async={}", id, ticks, ms, lo, hi, is_async);
+            }
+            let ttl_gone = !s.store.iter().any(|e| e.index == 1);
+            let keep = s.store.iter().any(|e| e.index == 2);
+            if len_before != 2 || !ttl_gone || !keep || !evicted.iter().any(|c| c.starts_with("evict:1:")) {
+                println!("MONITOR property=C05 case={} msg=with_the_real_ticker_({}_ms)_the_expired_entry_was_not_reclaimed_or_the_live_one_was:_len_before={}_store_after={:?}_callbacks={:?}_async={}",
+                         id, ms, len_before, s.store.iter().map(|e| e.index).collect::<Vec<_>>(), evicted, is_async);
+            }
+            rows.push(format!("{{\"async\":{},\"interval_ms\":{},\"ticks_in_1200ms\":{}}}", is_async, ms, ticks));
+            let _ = do_op(&ck, &Op::Close);
+            id += 1;
+        }
+    }
+    stretto::verif::install(None);
+    format!(",\"model\":false,\"ticker_measurements\":[{}]", rows.join(","))
+}
